@@ -187,10 +187,10 @@ def run_reference(db, text):
         I.close()
 
 
-REF_TIMEOUT = 300.0
+REF_TIMEOUT = {"ex": 300.0, "gen": 40.0}
 
 
-def guarded_reference(db, text):
+def guarded_reference(db, text, kind):
     """run_reference in a forked child.  An input whose *single-call* run kills the process (or never ends) is not an
     error-free input: it lies outside the domain of this property (it is C08's business) and must not take the worker down."""
     r, w = os.pipe()
@@ -207,7 +207,7 @@ def guarded_reference(db, text):
             os._exit(code)
     os.close(w)
     chunks = []
-    deadline = time.time() + REF_TIMEOUT
+    deadline = time.time() + REF_TIMEOUT[kind]
     timed_out = False
     try:
         while True:
@@ -226,7 +226,7 @@ def guarded_reference(db, text):
         os.close(r)
     status = os.waitpid(pid, 0)[1]
     if timed_out:
-        return {"rc": "timeout", "err": "single-call run did not end within %d s" % REF_TIMEOUT}
+        return {"rc": "timeout", "err": "single-call run did not end within %d s" % REF_TIMEOUT[kind]}
     if os.WIFSIGNALED(status):
         return {"rc": "signal", "err": "single-call run died with signal %d" % os.WTERMSIG(status)}
     if os.WEXITSTATUS(status) != 0:
@@ -425,11 +425,11 @@ def check_case(case, ctx):
         db, sims = example(case["name"])
         key = ("ex", case["name"])
         if key not in _ref_cache:
-            _ref_cache[key] = guarded_reference(db, "".join(sims))
+            _ref_cache[key] = guarded_reference(db, "".join(sims), "ex")
         ref = _ref_cache[key]
     else:
         db, sims = case["db"], case["sims"]
-        ref = guarded_reference(db, "".join(sims))
+        ref = guarded_reference(db, "".join(sims), "gen")
     if ref["rc"] in ("signal", "timeout"):
         ctx.event("whole_run_" + ref["rc"] + "_outside_domain")
         raise Discard("whole_run_" + ref["rc"])
